@@ -153,6 +153,12 @@ def impl_run(mf, path, want_pieces=False):
         return {"error": f"{type(e).__name__}: {e}"}
 
 
+def _recheck_mod():
+    core.use_repo_in_process()
+    import importlib
+    return importlib.import_module("torrentfile.recheck")
+
+
 def impl_result(mf, path):
     core.use_repo_in_process()
     import importlib
@@ -360,6 +366,10 @@ def v2_piece_guard(entries, origs, pl):
             t = min(s + pl, e["L"])
             if n >= t:
                 out.append(True)            # nothing of this piece is missing
+            elif pl == B and n <= s:
+                # one block per piece and the whole piece absent: the tool's digest for it (SHA-256 of that many zero
+                # bytes) IS the zero-fill digest, so the verdict is comparable even when the described bytes are all zero
+                out.append(True)
             else:
                 out.append(any(o[max(s, n):t]))
     return out
@@ -1047,6 +1057,7 @@ def e2e(ctx, mode):
                     sets.append(([d for _, d in sc.files], []))
                 for _ in range(nsets):
                     sets.append(gen_damage_set(rng, sc.files, sc.pl, rng.randrange(1, 5), sc.single))
+            held = {}
             for sn, (state, desc) in enumerate(sets):
                 sc.set_state(state)
                 for kind, (mf, meta) in sc.metas.items():
@@ -1063,6 +1074,22 @@ def e2e(ctx, mode):
                         {"tree: " + c for c in sc.gen_classes}
                     if mode == "C16":
                         impl = impl_run(mf, sc.root)
+                        # the SAME Checker object asked again after the disk changed must report the new state, not a blend
+                        if sn == 0:
+                            try:
+                                held[kind] = trees.quiet(lambda: _recheck_mod().Checker(mf, sc.root))
+                                trees.quiet(held[kind].results)
+                            except Exception:  # noqa
+                                held.pop(kind, None)
+                        elif kind in held and "error" not in impl:
+                            try:
+                                again = trees.quiet(held[kind].results)
+                            except Exception as e:  # noqa
+                                again = f"{type(e).__name__}: {e}"
+                            cl.add("a Checker object reused after the disk changed")
+                            if again != impl["result"]:
+                                ctx.fail("reused-checker-object-differs", dict(inp, earlier_states=[d for _, d in sets[:sn]]),
+                                         f"{impl['result']} (what a fresh Checker reports for this disk state)", again)
                     else:
                         r = impl_result(mf, sc.root)
                         impl = {"error": r} if isinstance(r, str) else {"result": r, "results()": r, "trace": []}
@@ -1093,6 +1120,36 @@ def e2e(ctx, mode):
             shutil.rmtree(base, ignore_errors=True)
         if mode in ("C05", "C16"):
             aimed_utf8(ctx, mode, tmp)
+        if mode in ("C04", "C16"):
+            aimed_zero_tail(ctx, mode, tmp)
+
+
+def aimed_zero_tail(ctx, mode, tmp):
+    """aimed class: one block per piece (pl = 16 KiB) and a file whose final partial piece is all zeros (sparse / preallocated
+       tail), removed or truncated on a piece boundary: the zero-fill verdict for that last piece is `verifies`"""
+    rng = random.Random(ctx.rng.getrandbits(64))
+    pl = B
+    for n, tail in enumerate((300, 1, B - 1)):
+        tree = {("y",): rng.randbytes(10), ("z.bin",): rng.randbytes(2 * pl) + bytes(tail), ("zz",): rng.randbytes(pl + 3)}
+        sc = Scenario(os.path.join(tmp, f"zt{n}"), rng, pl=pl, tree=tree, kinds=V2_KINDS + ["v1"])
+        zi = [i for i, (c, _) in enumerate(sc.files) if c[-1] == "z.bin"][0]
+        for label, cut in (("removed", None), ("truncated on the first piece boundary", pl), ("truncated on the last piece boundary", 2 * pl)):
+            state = [d for _, d in sc.files]
+            state[zi] = None if cut is None else sc.files[zi][1][:cut]
+            sc.set_state(state)
+            for kind, (mf, meta) in sc.metas.items():
+                entries, origs = sc.entries(kind)
+                per_file = view_of(meta) == "v2"
+                guard = True
+                if per_file:
+                    g = v2_piece_guard(entries, origs, pl)
+                    guard = True if all(g) else g
+                inp = sc.describe(kind, [["zero-tail", label, tail]], {"scope": "aimed-zero-tail"})
+                judge(ctx, mode, "zero-tail-" + ("v2" if per_file else "v1"), inp, entries, origs, impl_run(mf, sc.root),
+                      reference(meta, sc.root), guard_ok=guard)
+                ctx.case(key=("zero-tail", n, label, kind), nontrivial=True,
+                         classes=["all-zero final partial piece absent (one block per piece)", "metafile " + kind])
+        shutil.rmtree(sc.base, ignore_errors=True)
 
 
 def aimed_utf8(ctx, mode, tmp):
